@@ -190,6 +190,7 @@ class Flow:
 
         IN = forward(g, init, transfer, lambda a, b: a | b)
         self._rd = (IN, where, vals)
+        self._cfg = g
         return self._rd
 
     def origins_at(self, expr, skip_none=True, _seen=None) -> list:
@@ -227,6 +228,24 @@ class Flow:
         if skip_none and isinstance(expr, ast.Constant) and expr.value is None:
             return out
         return [expr]
+
+    def may_run_after(self, later, earlier) -> bool:
+        """Some execution evaluates expression node `later` after expression node `earlier` (a path of the control-flow graph leads
+        from the statement of `earlier` to the statement of `later`; within one statement: never decided, False)."""
+        _IN, where, _vals = self._reaching()
+        a, b = where.get(id(earlier)), where.get(id(later))
+        if a is None or b is None or a is b:
+            return False
+        seen, todo = set(), [m for m, _ in a.succ]
+        while todo:
+            n = todo.pop()
+            if n is b:
+                return True
+            if n in seen:
+                continue
+            seen.add(n)
+            todo += [m for m, _ in n.succ]
+        return False
 
     def is_param(self, expr, name) -> bool:
         """expr may be the (un-rebound) parameter `name`."""
